@@ -69,3 +69,9 @@ class JsonDumps:
 
     def ensures(self, a0, result):
         return {"readback": pyeval_str(result) == a0, "quoted": len(result) >= 2}
+
+
+@contract("json_to_models/dynamic_typing/base.py::BaseType.iter_child", props=[], verify=False)
+class IterChild:
+    """all nodes of the type tree below (and including) self - recursive generator, bounded-checked only"""
+    sorts = {"result": "list"}
